@@ -299,9 +299,10 @@ class Ctx:
             shutil.copy(os.path.join(REPO, "go.sum"), os.path.join(d, "go.sum"))
         return mf
 
-    def go_build_test(self, pkg, drivers, race=False, tags="verif", goarch=None):
-        """Compile the package's test binary with driver files overlaid into it (goarch: for another architecture, e.g. 386)."""
-        key = (pkg, tuple(drivers), race, tags, goarch)
+    def go_build_test(self, pkg, drivers, race=False, tags="verif", goarch=None, drop_own_tests=False):
+        """Compile the package's test binary with driver files overlaid into it (goarch: for another architecture, e.g. 386;
+        drop_own_tests: leave the package's own _test.go files out - some of them do not compile for a 32-bit int)."""
+        key = (pkg, tuple(drivers), race, tags, goarch, drop_own_tests)
         if key in self._built:
             return self._built[key]
         repl = {}
@@ -310,6 +311,10 @@ class Ctx:
             if not os.path.exists(src):
                 raise Infra("driver missing: " + src)
             repl[os.path.join(REPO, pkg, "zz_verif_" + os.path.basename(src))] = src
+        if drop_own_tests:
+            for fn in os.listdir(os.path.join(REPO, pkg)):
+                if fn.endswith("_test.go"):
+                    repl[os.path.join(REPO, pkg, fn)] = ""
         bdir = tempfile.mkdtemp(prefix="gobuild-", dir=self.tmp)
         ov = os.path.join(bdir, "overlay.json")
         with open(ov, "w") as fh:
